@@ -199,7 +199,16 @@ func RunC14(c *core.Ctx) {
 					continue
 				}
 				if e.Agency == protocol.AgencyNone {
-					continue // terminal: the protocol is finished
+					// terminal: nobody has to move any more, so however long the
+					// instance is kept afterwards (a server after the peer's Done,
+					// a connection that carries on with its other mini-protocols)
+					// no timeout may be reported - in particular not the one of
+					// the state the conversation was in before
+					if len(path) > 0 {
+						cases = append(cases, c14case{t: t, role: role, state: s, timed: false, kind: "stall", path: path, factor: 3.5})
+						c.Count("terminal_state_cases", 1)
+					}
+					continue
 				}
 				if timed {
 					timedStates++
